@@ -33,6 +33,7 @@ ASSUMPTIONS = [
 ]
 
 X = ("var", "x")
+ROOTS = (("attr", ("param", "clip_annotations"), "sound_events"), ("attr", ("param", "clip_predictions"), "sound_events"))
 
 
 class Dom:
@@ -111,6 +112,9 @@ class C08:
                 return {("unknown", show(t))}
             out = set()
             for src in self.iter_sources(L.iter):
+                if src in ROOTS:
+                    out.add(("obj", src))  # an element of the prediction / annotation list itself
+                    continue
                 if src[0] == "call" and src[1] == ("builtin", "range") and len(src[2]) == 1 and src[2][0][0] == "call" and src[2][0][1] == ("builtin", "len"):
                     out.add(("idx", self.base_seq(s, src[2][0][2][0])))
                     continue
@@ -124,6 +128,15 @@ class C08:
             # table[i]: element of an index table, provided i indexes a list index-equivalent to the table
             table, i = t[1], t[2]
             di = self.domains(s, i, depth + 1)
+            if table in ROOTS:
+                for d in di:
+                    if d[0] == "none":
+                        continue
+                    if d[0] != "idx":
+                        return {("unknown", f"index of {show(table)[:40]}: {self.dshow(d)}")}
+                    if not self.equivalent(s, d[1], table):
+                        return {("illtyped", f"{show(table)[:50]}[…] indexed by {self.dshow(d)}")}
+                return {("obj", table)}
             e = self.elt_of(s, table)
             if e is None:
                 return {("unknown", f"subscript of {show(table)[:40]}")}
@@ -156,9 +169,27 @@ class C08:
             return self.domains(s, e[0][1][k], depth + 1)
         return {("unknown", f"component {k} of {show(src)[:40]}")}
 
+    def root_of(self, s: Summary, t):
+        """the prediction / annotation list a (filtered, converted) list of sound events is drawn from, else None"""
+        seen = 0
+        while seen < 10:
+            seen += 1
+            if t in ROOTS:
+                return t
+            if t[0] == "comp" and t[1] in ("list", "gen") and len(t[3]) == 1 and t[2] == ("elem", t[3][0][0]):
+                t = t[3][0][1]
+                continue
+            if t[0] == "call" and t[1] in (("builtin", "list"), ("builtin", "tuple")) and len(t[2]) == 1:
+                t = t[2][0]
+                continue
+            return None
+        return None
+
     def dshow(self, d):
         if d[0] == "idx":
             return f"Idx({show(d[1])[:70]})"
+        if d[0] == "obj":
+            return f"ElementOf({show(d[1])[:50]})"
         return d[0] + (f"({d[1]})" if len(d) > 1 else "")
 
     def equivalent(self, s: Summary, a, b) -> bool:
@@ -271,14 +302,16 @@ class C08:
         seen_sub = set()
         for ev in s.events:
             for x in list(walk(ev.term)) + list(walk(ev.live)):
-                if x[0] == "sub" and x[1] in (BA, BP) and x[2][0] not in ("const", "slice") and x not in seen_sub:
+                if x[0] == "sub" and x[2][0] not in ("const", "slice") and x not in seen_sub \
+                        and (x[1] in (BA, BP) or (x[1][0] == "comp" and self.root_of(s, x[1]) in (BA, BP))):
                     seen_sub.add(x)
         for x in sorted(seen_sub, key=repr):
             base, i = x[1], x[2]
             doms = self.domains(s, i)
             bad = [d for d in doms if d[0] in ("unknown", "illtyped", "float")]
             wrong = [d for d in doms if d[0] == "idx" and not self.equivalent(s, d[1], base)]
-            name = "clip_predictions.sound_events" if base == BP else "clip_annotations.sound_events"
+            root = self.root_of(s, base)
+            name = ("clip_predictions.sound_events" if root == BP else "clip_annotations.sound_events") + ("" if base == root else " (filtered)")
             if wrong or any(d[0] == "illtyped" for d in doms):
                 d = (wrong or [d for d in doms if d[0] == "illtyped"])[0]
                 ctx.bad("R08.2", self.file, "evaluate_clip", f"{name}[{show(i)[:40]}]",
@@ -349,6 +382,21 @@ class C08:
             want_src = NONE if p_none else ("sub", BP, pi)
             want_tgt = NONE if a_none else ("sub", BA, ai)
             src_t, tgt_t = peval(kw.get("source", NONE), env), peval(kw.get("target", NONE), env)
+            # the loop element may carry the sound events themselves instead of their positions
+            if not p_none and src_t == pi and self.domains(s, pi) <= {("obj", BP), ("none",)}:
+                want_src = pi
+            if not a_none and tgt_t == ai and self.domains(s, ai) <= {("obj", BA), ("none",)}:
+                want_tgt = ai
+            for side_t, rootB in ((src_t, BP), (tgt_t, BA)):
+                if side_t == NONE:
+                    continue
+                dd = self.domains(s, side_t)
+                if dd <= {("obj", rootB), ("none",)}:
+                    ctx.ok("R08.2", f"{self.file}:{a.lineno} evaluate_clip", f"case {cname}: {show(side_t)[:40]} is an element of {show(rootB)}")
+                elif any(d[0] == "obj" and d[1] != rootB for d in dd):
+                    ctx.bad("R08.2", self.file, "evaluate_clip", f"case {cname}: {show(side_t)[:50]}",
+                            f"case {cname}: the {'source' if rootB == BP else 'target'} of the Match is drawn from "
+                            f"{[self.dshow(d) for d in dd if d[0] == 'obj'][0]} instead of {show(rootB)}", a.lineno)
             if src_t == want_src and tgt_t == want_tgt:
                 ctx.ok("R08.7", f"{self.file}:{a.lineno} evaluate_clip", f"case {cname}: one Match(source={show(want_src)[:30]}, target={show(want_tgt)[:30]})")
             else:
@@ -476,6 +524,12 @@ class C08:
             p = seq_positions(seq) if seq is not None else None
             return None if p is None else [p]
         el = ("elem", lid)
+        if it in ROOTS:
+            # [(x, None, 0.0) for x in B if c(x)]: the objects themselves
+            if it == B and comp == el:
+                return [pred_of(conds, el) if conds else "all"]
+            if it != B:
+                return ["none"] if comp == NONE else None
         if it[0] == "call" and it[1] == ("builtin", "enumerate") and len(it[2]) == 1:
             if it[2][0] == B and comp == ("sub", el, ("const", 0)):
                 return [pred_of(conds, ("sub", el, ("const", 1))) if conds else "all"]
